@@ -568,6 +568,13 @@ Fixpoint c10_fold (strict : bool) (sc : scen) (ms : tid -> mthread) (ps : pid ->
 Definition mon_C10 (strict : bool) (sc : scen) (obs : list callobs) : bool :=
   c10_fold strict sc (fun _ => mt0) (fun _ => PClean) (sc_hist sc) obs.
 
+(* C10, last clause: plain locks are never made unusable by panics in user code.  A call that ends in a user-code panic
+   issues no release that the auditing lock flags: a release in the wrong mode, or of a lock that is not held, is what
+   leaves a real raw lock (parking_lot) in a state from which nobody can acquire it *)
+Definition judge_C10u (ms : tid -> mthread) (prev : list rawst) (t : tid) (o : apiop) (co : callobs) : bool :=
+  implb (rcode_eqb (co_ret co) RPanicked) (negb (existsb ev_bad (co_evs co))).
+Definition mon_C10u (sc : scen) : list callobs -> bool := run_monitor judge_C10u sc.
+
 Definition ps_C10 : projspec := mkps (fun e => match e with ESee _ _ => true | _ => false end) false true false.
 
 Definition check_C10 := check_with2 ps_C10 (mon_C10 true) (mon_C10 false).
